@@ -34,6 +34,12 @@ func drawObject(t *rapid.T, maxEdits int, openers bool) engine.Case {
 	co := gen.LoadCorpus()
 	k := rapid.IntRange(0, 9).Draw(t, "kind")
 	switch {
+	case k < 2:
+		// content built into the places lints read (names, DNs, AIA, validity, keys)
+		if sc, ok := drawAnyStructured(t); ok {
+			return engine.Case{Kind: gen.Cert, DER: sc.DER, Base: sc.Base, Ops: append([]string{"structured:" + sc.Fam}, sc.Desc...)}
+		}
+		fallthrough
 	case k < 7 || len(co.CRLs) == 0:
 		cc := gen.DrawCert(t, maxEdits, openers)
 		return engine.Case{Kind: gen.Cert, DER: cc.DER, Base: cc.Base, Ops: cc.Ops}
